@@ -40,13 +40,16 @@ def _slot_functions(ctx) -> list[str]:
     """Functions called per rule inside Backend.convert's comprehension."""
     prog = ctx.prog
     cv = prog.func(CONVERT)
-    comps = [n for n in walk_no_nested(cv.node) if isinstance(n, ast.ListComp)]
+    # the per-rule step: a comprehension or a loop over the rules of the collection
+    comps = [n for n in walk_no_nested(cv.node) if isinstance(n, (ast.ListComp, ast.GeneratorExp, ast.For))]
     out: list[str] = []
     for comp in comps:
         for c in (x for x in ast.walk(comp) if isinstance(x, ast.Call)):
             d = call_name(c)
             if d.startswith("self.convert"):
-                out.append("sigma.conversion.base.Backend." + d.split(".", 1)[1])
+                q_ = "sigma.conversion.base.Backend." + d.split(".", 1)[1]
+                if q_ not in out:
+                    out.append(q_)
     if not out:
         raise AnalysisError(f"{CONVERT}: no per-rule conversion call found inside a comprehension")
     return out
@@ -59,62 +62,65 @@ def r1_containment(ctx) -> None:
                      "result gated on rule._output; conversion result stored")
     slots = _slot_functions(ctx)
     r.analysed["C08.per_rule_slot"] = slots
+    # each per-rule function interpreted (sa.tabulate, Proxy) on a stand-in rule: a Sigma error injected at each stage
+    # (pipeline application, condition/correlation conversion, query finishing, finalisation), in collecting and strict mode
+    from .standins import run_per_rule_converter, StandinSigmaError
     for q in slots:
         fi = prog.func(q)
         loc = fi.loc
-        tries = [t for t in fi.node.body if isinstance(t, ast.Try)]
-        nested_tries = [t for t in walk_no_nested(fi.node) if isinstance(t, ast.Try)]
-        work_calls = [c for c in walk_no_nested(fi.node) if isinstance(c, ast.Call) and (
-            call_name(c).endswith((".apply", "convert_condition", "finish_query", "finalize_query"))
-            or (isinstance(c.func, ast.Subscript) and "correlation_methods" in unparse(c.func)))]
-        if not work_calls:
-            raise AnalysisError(f"{q}: no pipeline/conversion/finalisation calls recognised")
-        # 1. try with a SigmaError handler enclosing all the work
-        handler: Optional[ast.ExceptHandler] = None
-        enclosing: Optional[ast.Try] = None
-        for t in nested_tries:
-            for h in t.handlers:
-                if h.type is not None and "SigmaError" in unparse(h.type):
-                    handler, enclosing = h, t
-        if handler is None or enclosing is None:
-            r.violation("C08.R1", q, "try: ... except SigmaError",
-                        "no try/except SigmaError around pipeline application, conversion and finalisation: a rule that fails here "
-                        "aborts the whole collection even when the backend collects errors", loc)
+        fn = q.rsplit(".", 1)[-1]
+        if fn not in ("convert_rule", "convert_correlation_rule"):
+            raise AnalysisError(f"{q}: per-rule conversion function without stand-in scenario")
+        bad_contain, bad_record, bad_strict = [], [], []
+        for stage in ("pipeline", "convert", "finish", "finalize"):
+            o = run_per_rule_converter(ctx, fn, output=True, fail_at=stage, collect=True)
+            if o.raised is not None:
+                bad_contain.append(f"a SigmaError while {stage} leaves {fn} although the backend collects errors ({o.raised})")
+            else:
+                if list(o.ret or []) != []:
+                    bad_contain.append(f"failing at stage {stage}: returns {o.ret!r} instead of no queries")
+                recs = list(o.errors)
+                if not (len(recs) == 1 and isinstance(recs[0], tuple) and len(recs[0]) == 2 and recs[0][0] is o.rule and recs[0][1] is o.error):
+                    bad_record.append(f"failing at stage {stage}: records {recs!r} instead of [(rule, error)]")
+            o = run_per_rule_converter(ctx, fn, output=True, fail_at=stage, collect=False)
+            if o.raised is None or "SigmaError" not in str(o.raised) or list(o.errors):
+                bad_strict.append(f"failing at stage {stage} without collect_errors: {'returns ' + repr(o.ret) if o.raised is None else 'raises ' + str(o.raised)}, records {list(o.errors)!r}")
+        # two failing rules with equal errors get a record each
+        o1 = run_per_rule_converter(ctx, fn, output=True, fail_at="convert", collect=True, fail_with=StandinSigmaError("same"))
+        o2 = run_per_rule_converter(ctx, fn, output=True, fail_at="convert", collect=True, me=o1.me, fail_with=o1.error)
+        if o2.raised is None and len(list(o2.errors)) != 2:
+            bad_record.append(f"two failing rules: {len(list(o2.errors))} record(s) — the record is appended only under a further condition (e.g. not already in self.errors — records compare by content, so the later of two equal failing rules gets none): exactly one record per failing rule")
+        if not bad_contain:
+            r.ok("C08.R1", q, "a Sigma error at any stage (pipeline, conversion, finishing, finalisation) is contained in collecting mode: no queries for the rule (interpreted)", loc)
         else:
-            outside = [c for c in work_calls if not any(c is x for s in enclosing.body for x in ast.walk(s))]
-            if outside:
-                for c in outside:
-                    r.violation("C08.R1", q, short(c, 100), "pipeline/conversion/finalisation step lies outside the try that collects Sigma errors",
-                                f"{fi.module.relpath}:{c.lineno}")
-            else:
-                r.ok("C08.R1", q, f"{len(work_calls)} pipeline/conversion/finalisation calls inside try/except SigmaError", loc)
-            why = _handler_shape(handler)
-            hloc = f"{fi.module.relpath}:{handler.lineno}"
-            if why is None:
-                r.ok("C08.R1", q, "handler: collect_errors -> errors.append((rule, e)); return [] | else raise", hloc)
-            else:
-                r.violation("C08.R1", q, "except SigmaError handler", why, hloc)
-        # 2. result gated on rule._output
-        rets = [x for x in walk_no_nested(fi.node) if isinstance(x, ast.Return) and x.value is not None
-                and not (handler is not None and any(x is y for s in handler.body for y in ast.walk(s)))]
-        gated = []
-        for rt in rets:
-            gs = atomic_guards(guards_at(prog, fi, rt))
-            if isinstance(rt.value, ast.List) and not rt.value.elts:
-                continue
-            if ("rule._output", True) in gs:
-                gated.append(rt)
-            else:
-                r.violation("C08.R1", q, stmt_head(rt),
-                            "queries are returned without testing rule._output: a rule referenced only by non-generating correlation rules still emits its own query",
-                            f"{fi.module.relpath}:{rt.lineno}")
-        if gated:
-            r.ok("C08.R1", q, "non-empty result returned only under rule._output", f"{fi.module.relpath}:{gated[0].lineno}")
-        # 3. result stored
-        if any(isinstance(c, ast.Call) and call_name(c) == "rule.set_conversion_result" for c in walk_no_nested(fi.node)):
+            r.violation("C08.R1", q, f"try: ... except SigmaError: {bad_contain[0]}",
+                        "no try/except SigmaError around pipeline application, conversion and finalisation (or the step lies outside it): a rule that fails here "
+                        "aborts the whole collection even when the backend collects errors; the collecting branch must return an empty list (the failing rule would contribute queries)", loc)
+        if not bad_record and not bad_strict:
+            r.ok("C08.R1", q, "handler: collect_errors -> errors.append((rule, e)); return [] | else raise (interpreted: one record per failing rule with the rule and the error object; strict mode re-raises and records nothing)", loc)
+        else:
+            r.violation("C08.R1", q, f"except SigmaError handler: {(bad_record + bad_strict)[0]}", "collecting mode records exactly (rule, error) once per failing rule; the non-collecting branch re-raises the caught error", loc)
+        # result gated on rule._output, result stored
+        bad_gate, bad_store = [], []
+        for referenced in (False, True):
+            for output in (False, True):
+                o = run_per_rule_converter(ctx, fn, False, referenced, output)
+                if o.raised is not None:
+                    bad_gate.append(f"(referenced={referenced}, output={output}): raises {o.raised}")
+                    continue
+                if bool(list(o.ret or [])) != output:
+                    bad_gate.append(f"rule with _output={output} (referenced={referenced}) returns {o.ret!r}")
+                if len(o.stored) != 1 or len(o.stored[0]) != 2:
+                    bad_store.append(f"(referenced={referenced}, output={output}): stored {o.stored!r}")
+        if not bad_gate:
+            r.ok("C08.R1", q, "non-empty result returned only under rule._output", loc)
+        else:
+            r.violation("C08.R1", q, f"return of the queries: {bad_gate[0]}",
+                        "queries are returned without testing rule._output: a rule referenced only by non-generating correlation rules still emits its own query", loc)
+        if not bad_store:
             r.ok("C08.R1", q, "rule.set_conversion_result(...) called", loc)
         else:
-            r.violation("C08.R1", q, "rule.set_conversion_result(finalized_queries)", "conversion result is not stored on the rule", loc)
+            r.violation("C08.R1", q, f"rule.set_conversion_result(finalized_queries): {bad_store[0]}", "conversion result is not stored on the rule", loc)
     r.floor("C08.R1", 5)
 
 
@@ -248,27 +254,25 @@ def r3_order_multiplicity(ctx) -> None:
     r.rule("C08.R3", "Backend.convert builds its result with one flat comprehension over rule_collection.rules in order; "
                      "convert_rule creates one state per parsed condition, converts each condition once and appends at most once per condition")
     cv = prog.func(CONVERT)
-    comps = [n for n in walk_no_nested(cv.node) if isinstance(n, ast.ListComp)]
-    ok = False
-    for comp in comps:
-        gens = comp.generators
-        if len(gens) == 2 and unparse(gens[0].iter) == "rule_collection.rules" and not gens[0].ifs and not gens[1].ifs \
-                and isinstance(comp.elt, ast.Name) and unparse(gens[1].target) == comp.elt.id:
-            ok = True
-            r.ok("C08.R3", cv.qual, "[query for rule in rule_collection.rules for query in <per-rule conversion>]", f"{cv.module.relpath}:{comp.lineno}")
-        else:
-            r.violation("C08.R3", cv.qual, short(comp, 160), "result comprehension is not a flat, unfiltered, in-order walk over rule_collection.rules", f"{cv.module.relpath}:{comp.lineno}")
-    if not comps:
-        r.violation("C08.R3", cv.qual, "queries = [query for rule in rule_collection.rules for query in ...]", "flat comprehension over the rules not found", cv.loc)
-    for wrapper in ("sorted", "set", "reversed", "dict.fromkeys"):
-        for c in (x for x in walk_no_nested(cv.node) if isinstance(x, ast.Call) and call_name(x) == wrapper):
-            r.violation("C08.R3", cv.qual, short(c, 100), f"{wrapper}() re-orders or de-duplicates rules/queries in Backend.convert", f"{cv.module.relpath}:{c.lineno}")
-    # finalize receives the complete list
-    fin = [c for c in walk_no_nested(cv.node) if isinstance(c, ast.Call) and call_name(c) == "self.finalize"]
-    if len(fin) == 1 and fin[0].args and unparse(fin[0].args[0]) == "queries":
-        r.ok("C08.R3", cv.qual, "self.finalize(queries, ...) once, on the full list", f"{cv.module.relpath}:{fin[0].lineno}")
+    # Backend.convert interpreted (sa.tabulate, Proxy) on a stand-in collection of five rules (plain and correlation, one
+    # without queries, one listed twice, two rules with an equal query)
+    from .standins import run_backend_convert
+    o = run_backend_convert(ctx)
+    want = ["r1-a", "same", "c1-a", "same", "r2-a", "same", "r1-a", "same"]
+    conv = [(t[0], t[1]) for t in o.trace if t[0].startswith("convert")]
+    want_conv = [("convert_rule", "r1"), ("convert_correlation_rule", "c1"), ("convert_rule", "r2"), ("convert_rule", "empty"), ("convert_rule", "r1")]
+    fins = [t for t in o.trace if t[0] == "finalize"]
+    if o.raised is not None:
+        r.violation("C08.R3", cv.qual, "queries = [query for rule in rule_collection.rules for query in ...]", f"convert raises {o.raised} on the stand-in collection", cv.loc)
     else:
-        r.violation("C08.R3", cv.qual, "return self.finalize(queries, ...)", "finalize is not called exactly once on the complete query list", cv.loc)
+        if conv == want_conv:
+            r.ok("C08.R3", cv.qual, "every rule of the collection is converted once, in order, plain rules and correlation rules by their converter (interpreted)", cv.loc)
+        else:
+            r.violation("C08.R3", cv.qual, f"queries = [query for rule in rule_collection.rules for query in ...]: conversions {conv}", f"expected {want_conv}: the result is not a flat, unfiltered, in-order walk over rule_collection.rules", cv.loc)
+        if len(fins) == 1 and fins[0][1] == want and o.ret == ("FINAL", want):
+            r.ok("C08.R3", cv.qual, "self.finalize(queries, ...) once, on the full list in rule order (equal queries of different rules kept); its result is returned", cv.loc)
+        else:
+            r.violation("C08.R3", cv.qual, f"return self.finalize(queries, ...): finalize calls {[t[1] for t in fins]}, result {o.ret!r}", f"finalize is not called exactly once on the complete query list {want} (re-ordered, de-duplicated or filtered queries)", cv.loc)
     # convert_rule loop
     cr = prog.func(PER_RULE[0])
     loops = [n for n in walk_no_nested(cr.node) if isinstance(n, ast.For) and "parsed_condition" in unparse(n.iter)]
